@@ -58,6 +58,10 @@ SHARED = [
     # decides the text; it must be the same order in every build
     '.macro wide\n .db @0, @1, @2, @3, @4, @5, @6, @7, @8, @9, @10, @11\n.endm\n wide 1, 2, 3, 4, 5, 6, 7, 8, 9, 10, 11, 12',
     '.macro wide\n ldi r16, @12\n ldi r17, @1\n ldi r18, @10 + @2\n.endm\n wide 1, 2, 3, 4, 5, 6, 7, 8, 9, 10, 11, 12, 13\n wide 9, 8, 7, 6, 5, 4, 3, 2, 1, 0, 1, 2, 3',
+    # a macro defined several times under names that differ in letter case only: ONE of them serves a call, the same one
+    # in every build (never whichever a hash map happens to yield first)
+    '.macro Setup\n ldi r16, 1\n.endm\n.macro setup\n ldi r16, 2\n.endm\n.macro SETUP\n ldi r16, 3\n nop\n.endm\n.macro sEtUp\n .dw 4\n.endm\n setup\n Setup',
+    '.macro Init\n bogus r1\n.endm\n.macro INIT\n nop\n.endm\n.macro init\n ret\n.endm\n.macro iNit\n .error "x"\n.endm\n init',
     # data, eeprom, messages
     '.eseg\n.db 1, 2, 3\n.cseg\n nop\n.message "a"\n.message "b"',
     '.eseg\n.db 9\n.cseg\n ret\n.message "b"\n.message "a"',
